@@ -240,7 +240,7 @@ def reasonNames : List (Nat × Nat) := [
   (0xB, 97596610287296961724036190376221568878),  -- IllegalOperation
   (0xC, 106864982508705315285607275342594663780),  -- PermissionDenied
   (0xD, 1610107646597087532288536722433380),  -- ObjectArchived
-  (0xE, 97606832626976729851895710352633914483),  -- IndexOutofBounds
+  (0xE, 97606832626976729849589867343420220531),  -- IndexOutOfBounds
   (0xF, 29598997947531248351304254595784897031093788574360522255373027899075728794980),  -- ApplicationNamespaceNotSupported
   (0x10, 473270758798557418899370481852963726289796033408009432753508),  -- KeyFormatTypeNotSupported
   (0x11, 520366701151224813417562059410702388208310503668422908984848264379786596),  -- KeyCompressionTypeNotSupported
